@@ -7,6 +7,7 @@
    embed_nostreams: the graph for a header without MainStreamsInfo. *)
 From P7 Require Import Prelude PyPrims Number Header Spec Assign AssignProofs.
 From P7 Require PackInfoGen.
+From P7 Require HeaderGenPrims FolderGen.
 From P7gen Require ArchiveinfoRecords.
 Open Scope Z_scope.
 
@@ -223,3 +224,35 @@ Example C06_gen_PackInfo_example :
    Ok (PackInfoGen.pack_of o, r)) = Ok (mkPack 5 2 [40; 300] [true; false] [305419896; 0], [77])
   /\ ArchiveinfoRecords.PackInfo_retrieve [5; 0; 7] = Err EBad7z.
 Proof. split; vm_compute; reflexivity. Qed.
+
+(* ---- third wave (stage 2): Folder._read / retrieve and UnpackInfo._read / _retrieve_coders_info / retrieve as translated
+   on this run are parse_folder / parse_unpackinfo.  FolderGen.folder_of maps the generated record to the model's (coders
+   are dicts with the four keys, bind pairs are Bond objects; `solid` and the compressor attributes are not in the model).
+   UnpackInfo: equal up to the CLASS of the exception (res_same): at the end of the record the code formats
+   `0x{ord(pid):02x}` into its Bad7zFile message, so at end of input it raises TypeError where the model says Bad7zFile;
+   the branch for an external folder stream (file.seek, "no live example") is not translated: both sides answer
+   EUnsupported there. ---- *)
+Theorem C06_gen_Folder_retrieve_is_parse_folder : forall lim bs, wf_bytes bs = true -> parse_folder lim bs <> Err EFuel ->
+  (do (o, r) <- ArchiveinfoRecords.Folder_retrieve bs; Ok (FolderGen.folder_of o, r)) = parse_folder lim bs.
+Proof. exact FolderGen.gen_Folder_retrieve_eq_model. Qed.
+Print Assumptions C06_gen_Folder_retrieve_is_parse_folder.
+
+Theorem C06_gen_UnpackInfo_retrieve_is_parse_unpackinfo : forall lim bs, wf_bytes bs = true ->
+  parse_unpackinfo lim bs = Err EFuel \/
+  HeaderGenPrims.res_same
+    (do (o, r) <- ArchiveinfoRecords.UnpackInfo_retrieve bs;
+     Ok (map FolderGen.folder_of (ArchiveinfoRecords.UnpackInfo_folders o), r))
+    (parse_unpackinfo lim bs).
+Proof. exact FolderGen.gen_UnpackInfo_retrieve_model_or. Qed.
+Print Assumptions C06_gen_UnpackInfo_retrieve_is_parse_unpackinfo.
+
+(* whenever the model accepts, the generated reader returns exactly the model's folders and the same rest *)
+Theorem C06_gen_UnpackInfo_retrieve_accepts : forall lim bs fs r, wf_bytes bs = true -> parse_unpackinfo lim bs = Ok (fs, r) ->
+  (do (o, r) <- ArchiveinfoRecords.UnpackInfo_retrieve bs;
+   Ok (map FolderGen.folder_of (ArchiveinfoRecords.UnpackInfo_folders o), r)) = Ok (fs, r).
+Proof. exact FolderGen.gen_UnpackInfo_retrieve_eq_model. Qed.
+Print Assumptions C06_gen_UnpackInfo_retrieve_accepts.
+
+Theorem C06_gen_read_crcs_is_rd_crcs : forall bs count, 0 <= count -> ArchiveinfoRecords.read_crcs bs count = rd_crcs count bs.
+Proof. exact FolderGen.gen_read_crcs_rd_crcs. Qed.
+Print Assumptions C06_gen_read_crcs_is_rd_crcs.
